@@ -1000,8 +1000,18 @@ def run_case(case, ctx):
     rs = random.Random(case["rseed"])
     ranges = [[None if v is None else int(v) for v in r] for r in case["ranges"]]
     bad = [[int(v) for v in r] for r in case["bad"]]
+    d_before, e_before = ctx.call(obj.to_dict)
     firsts = _pos_suite(ctx, M, obj, ranges, bad, 1, mode, rs)
     id_firsts = _id_suite(ctx, M, obj, rs, case["pool"], 1, mode)
+    # ---- queries are read-only and repeatable: the source collection is what it was, and the first range asked again after all the
+    # other queries answers as it did the first time (every query was already judged against the model when it was first asked) ----
+    if e_before is None:
+        d_after, e_after = ctx.call(obj.to_dict)
+        ctx.check("pos.members", e_after is None and d_after == d_before, key=("source-collection-changed-by-queries",), mode=mode,
+                  exc=repr(e_after)[:200] if e_after else None)
+    for s0, e0 in ranges[:3]:
+        for flags in (FLAGS[2], FLAGS[0]):      # strict and relaxed, no filter, no expansion
+            _pos_query(ctx, M, obj, s0, e0, flags, 1, mode + "-asked-again")
 
     # ---- second generation: the operand is itself the result of a query (on a chunk when there is sequence) ----------
     cand = [(o, f) for o, f in firsts if o[1]["members"]]
